@@ -1,9 +1,9 @@
 SPECIFICATION Spec
 CONSTANT Depth = 3
-CONSTANT DcShift = "0"
+CONSTANT DcShift = "4294966295"
 CONSTANT Hook = FALSE
-CONSTANT Side = "client"
+CONSTANT Side = "listener"
 CONSTANT Mms = 0
 INVARIANT Emit
 CHECK_DEADLOCK FALSE
-CONSTANT Pipelined = FALSE
+CONSTANT Pipelined = TRUE
